@@ -7,7 +7,9 @@
      _make_mask (REPAIRED, see fixes/C12-1; the text at HEAD is [make_mask_head]),
      SourceGrouper._group_sources (fclusterdata := Conn.components on the graph
        dist <= min_separation, then the defaultdict first-appearance renumbering),
-     _prepare_init_params (ids, group ids), _get_invalid_positions/_check_init_positions,
+     _prepare_init_params (ids, group ids; REPAIRED, see fixes/C12-3: a group_id column given
+       in init_params is kept -- the text at HEAD, [group_ids_head], overwrites it with the ids),
+     _get_invalid_positions/_check_init_positions,
      _fit_sources (Table.group_by = stable sort on group_id, groups = runs,
        ungroup_idx = argsort(ids), one fitter call per group in group order),
      _make_psf_model (initial values, xy bounds), _define_fit_data (overlap_slices
@@ -359,6 +361,14 @@ Definition group_ids (g : grouping) (ids : list Z) (xy : list (Z * Z)) : option 
   match g with
   | GId => Some ids                         (* init_params['id'].copy() *)
   | GUser l => Some l
+  | GSep t => option_map (map Z.of_nat) (group_sources xy t)
+  end.
+(* HEAD: `if 'group_id' in colnames: self.grouper = None`, then the `else` branch of
+   `if self.grouper is not None` assigns init_params['id'].copy() to the column *)
+Definition group_ids_head (g : grouping) (ids : list Z) (xy : list (Z * Z)) : option (list Z) :=
+  match g with
+  | GId => Some ids
+  | GUser _ => Some ids
   | GSep t => option_map (map Z.of_nat) (group_sources xy t)
   end.
 Definition mk_srcs (ids gids : list Z) (ins : list srcin) : list src :=
